@@ -96,6 +96,21 @@ def r20_1_escape_set(ctx: Ctx) -> RuleResult:
     rr.notes.append(f"library operations modelled: {A.ops_seen}, discharged by a dominating guard: {len(A.discharged)}")
     if sum(absorbed.values()) < 10:
         raise AnalysisError("boundary inventory implausibly small: the decode region was not analysed")
+    # a documented lookup error is excluded only while it is raised for an *absent* id: `x is None` on a lookup result
+    for (fq, exc), why in EXCLUDED_ORIGINS.items():
+        f = M.func(fq, required=False)
+        if f is None:
+            raise AnalysisError(f"{fq} (excluded origin) vanished")
+        sites = [n for n in own_nodes(f.node) if isinstance(n, ast.Raise) and n.exc is not None and A._raised_class(n.exc, f) == exc]
+        if not sites:
+            continue
+        for n in sites:
+            rr.inst()
+            none_facts = [fa for fa in facts_at(n) if (fa[1] == "is" and fa[2] == "None") or (fa[0] == "None" and fa[1] == "in")]
+            if none_facts:
+                rr.ok({"excluded_origin": f"{fq}:{exc}", "guard": f"{none_facts[0][0][:60]} is None"})
+            else:
+                rr.fail(fq, f"{exc} is excluded as a documented lookup error only when raised for an absent result (`... is None`); this raise is guarded by {sorted(facts_at(n))[:2]} - a present but falsy entry of damaged data would take it", ctx.loc(f, n))
     rr.samples.extend({"excluded": k, "reason": v} for k, v in list(EXCLUDED_FUNCS.items()))
     rr.samples.extend({"excluded_origin": f"{k[0]}:{k[1]}", "reason": v} for k, v in EXCLUDED_ORIGINS.items())
     return rr
